@@ -411,7 +411,7 @@ class OsProxy(object):
     def __getattr__(self, k): return getattr(os, k)
 
 
-def run_life(rp, choices, scratch):
+def run_life(rp, choices, scratch, task=None):
     import radical.pilot.raptor.worker_default as wd
     ctl = coop.Controller()
     fm  = FakeMP(ctl)
@@ -426,8 +426,9 @@ def run_life(rp, choices, scratch):
     watcher_alive = True
     done = []
     try:
-        task = {'uid': 'req.0', 'cores': 1, 'gpus': 0, 'task_sandbox_path': scratch + '/req.0',
-                'description': {'mode': 'task.eval', 'code': '40 + 2', 'timeout': 5, 'environment': {}}}
+        if task is None:
+            task = {'uid': 'req.0', 'cores': 1, 'gpus': 0, 'task_sandbox_path': scratch + '/req.0',
+                    'description': {'mode': 'task.eval', 'code': '40 + 2', 'timeout': 5, 'environment': {}}}
         w._request_cb([task])                         # allocates, creates and starts the dispatch process
         dp = [p for p in fm.procs.values() if p.role == 'dp'][0]
         ctl.grant('p%d' % dp.pid)                     # the dispatch process starts the rank process and joins
@@ -473,6 +474,37 @@ def run_life(rp, choices, scratch):
         for k, v in env0.items():
             if os.environ.get(k) != v: os.environ[k] = v
     return obs, done, w._res_put.items
+
+
+RANK_KINDS = ['returns', 'raises', 'sandbox', 'mode', 'pytask_args', 'no_code']
+
+
+def rank_task(rp, kind, n, scratch):
+    """one request for the whole worker-side path (real _request_cb -> _dispatch -> _worker_proc -> _result_cb):
+    'returns' / 'raises': the call runs; the other kinds fail OUTSIDE the dispatchers' own capturing block, in the
+    rank process's try block: the sandbox cannot be made (a path component is a file), no dispatcher is registered
+    for the mode, a serialized PythonTask that comes with arguments of its own, an eval request without code"""
+    td = {'mode': 'task.eval', 'code': '40 + %d' % n, 'timeout': 5, 'environment': {}, 'args': [], 'kwargs': {}}
+    sbox = '%s/rank.%s' % (scratch, kind)
+    if kind == 'raises':  td['code'] = "(_ for _ in ()).throw(ValueError('x%d'))" % n
+    if kind == 'mode':    td['mode'] = 'task.c20_unknown'
+    if kind == 'no_code': td['code'] = ''
+    if kind == 'pytask_args':
+        td.update({'mode': 'task.function', 'function': rp.PythonTask(_plain_fn, (), {}), 'args': [n]})
+    if kind == 'sandbox':
+        with open('%s/rank.file' % scratch, 'w') as fh: fh.write('x')
+        sbox = '%s/rank.file/sub' % scratch
+    return {'uid': 'req.0', 'cores': 1, 'gpus': 0, 'task_sandbox_path': sbox, 'description': td}
+
+
+def run_rank(rp, kind, n, scratch):
+    obs, done, answers = run_life(rp, ['wp'] * 5 + ['dp'] * 3 + ['watcher'] * 2, scratch, task=rank_task(rp, kind, n, scratch))
+    if len(answers) != 1:
+        return {'answers': len(answers)}
+    a = answers[0]
+    code = a.get('exit_code')
+    return {'answers': 1, 'exit': code, 'val': a.get('return_value'), 'exc': bool(a.get('exception')),
+            'state': run_target(rp, code, True), 'held': obs[-1]['held']}
 
 
 class PLock(object):
@@ -789,6 +821,32 @@ def run(ctx):
         for sig, what in life_monitor(obs, answers):
             ctx.fail(sig, what, {'kind': 'life', 'choices': cs})
     common.compare(ctx, 'raptor', lops, limpl, what='real DefaultWorker request life cycle under cooperative multiprocessing (final state per schedule)')
+    # (D+) the outcome of one request over the whole worker-side path
+    kops, kimpl = [], []
+    for i in range(ctx.n(3, 40)):
+        for kind in RANK_KINDS:
+            n = rng.randint(1, 9)
+            r = run_rank(rp, kind, n, ctx.scratch)
+            ran = kind in ('returns', 'raises')
+            kops.append({'op': 'rank', 'raised': None if ran else 1, 'ret': 0 if kind == 'returns' else 1,
+                         'val': 40 + n if kind == 'returns' else None, 'exc': n if kind == 'raises' else None})
+            kimpl.append({'exit': r.get('exit'), 'val': r.get('val'), 'exc': r.get('exc'), 'state': r.get('state')})
+            ctx.case({'rank': [kind, n]}, nontrivial=not ran)
+            inp = {'kind': 'rank', 'request': kind, 'n': n}
+            if r['answers'] != 1:
+                ctx.fail('worker:request-not-answered-exactly-once', '%d results for a %s request' % (r['answers'], kind), inp)
+            elif kind != 'returns' and (r['exit'] == 0 or r['state'] == 'DONE'):
+                ctx.fail('worker:request-that-did-not-succeed-reported-done', 'a %s request (%s) came back with exit code %r -> %s, exception recorded: %s'
+                         % (kind, 'the call raised' if ran else 'the call never ran: the rank process raised before the dispatcher returned',
+                            r['exit'], r['state'], r['exc']), inp)
+            elif kind != 'returns' and not r['exc']:
+                ctx.fail('worker:exception-not-reported', 'a %s request came back without its exception' % kind, inp)
+            elif kind == 'returns' and (r['exit'] != 0 or r['val'] != 40 + n or r['state'] != 'DONE'):
+                ctx.fail('worker:successful-request-not-reported', str(r), inp)
+            elif r['held']:
+                ctx.fail('worker:resources-not-returned', 'cores of a %s request are still busy' % kind, inp)
+    common.compare(ctx, 'raptor', kops, kimpl, what='real _request_cb -> _dispatch -> _worker_proc -> _result_cb -> Master._result_cb: requests that return, raise, '
+                   'or fail in the rank process before the dispatcher returns (sandbox, unknown mode, refused function, empty code)')
     # (D') the start of a request: request thread against the result watcher
     import itertools as _it
     sops, simpl = [], []
@@ -855,6 +913,11 @@ def replay(ctx, data):
             if (r['ret'] == 0) != (pl['raises'] is None): ok = False
             proc = {'env': r['env'], 'cenv': r['cenv']}
         return ok
+    if i['kind'] == 'rank':
+        r = run_rank(rp, i['request'], i['n'], ctx.scratch); print(r)
+        if r['answers'] != 1: return False
+        if i['request'] == 'returns': return r['exit'] == 0 and r['state'] == 'DONE' and r['val'] == 40 + i['n']
+        return r['exit'] != 0 and r['state'] == 'FAILED' and r['exc'] and not r['held']
     if i['kind'] == 'fwd':
         r = run_fwd(rp, i['ops']); bad = fwd_monitor(i['ops'], r, i['n']); print(r, bad); return not bad
     if i['kind'] == 'alloc':
